@@ -173,7 +173,7 @@ def make_case(rng, root, idx, plant):
         feats.add('include-before-probes')
     diag = None
     if plant:
-        where = rng.choice(['plain', 'macro-body', 'macro-arg', 'pasted', 'stringized-context', 'tokenizer-error-after-splice', 'tokenizer-error-after-splice'])
+        where = rng.choice(['plain', 'macro-body', 'macro-arg', 'pasted', 'stringized-context', 'tokenizer-error-after-splice', 'tokenizer-error-after-splice', 'widened-literal'])
         g.noise()
         if where == 'plain':
             g.lines.append('static int planted(void) {')
@@ -195,6 +195,14 @@ def make_case(rng, root, idx, plant):
             g.lines.append('}')
             diag = (where, {('main', ln)})
             feats.add('planted-kind:' + kind)
+        elif where == 'widened-literal':
+            # a narrow string literal re-encoded because its neighbour is wide: the new token must keep file and line of the original
+            g.lines.append('static void planted(void) {')
+            g.noise()
+            ln = g.cur()
+            g.lines.append('  %s = 1;' % rng.choice(['"ab" L"cd"', '"ab" u"cd"', '"x" "ab" U"cd"']))
+            g.lines.append('}')
+            diag = (where, {('main', ln)})
         elif where == 'macro-body':
             dl = g.cur()
             g.lines.append('#define BODY(x) ((x) + UNDEFINED_XYZ)')
@@ -432,7 +440,8 @@ def run(ctx):
              ('continued', '#line \\\n 3000'), ('macro-operand-continued', '#line \\\n BASE'), ('after-comment', '#line /* c */ 4000 /* d */'), ('big', '#line 2147483000')]
     rng = random.Random(ctx.seed + 18)
     rng.shuffle(forms)
-    lines = ['#include "vrt.h"', '#define BASE 2000', '#define BASE2 \\', '  2500', '#define FNAME "baz.c"', '', 'int main(void) {']
+    open(os.path.join(work, 'lp_hdr.h'), 'w').write('\n\n#define HDR_HERE() __LINE__\n#define HDR_HERE2 HDR_HERE()\n')
+    lines = ['#include "vrt.h"', '#include "lp_hdr.h"', '#define BASE 2000', '#define BASE2 \\', '  2500', '#define FNAME "baz.c"', '', 'int main(void) {']
     k = 0
     owners = []
     for (fname, d) in forms:
@@ -448,6 +457,9 @@ def run(ctx):
                 # statements made of pasted / stringized / macro-produced tokens: their debug line records must carry the presumed line too
                 lines.append('  GLUE(OU, TV)(%d, HERE); GLUE(OUT, S)(%d, STR(x));' % (k + 500, k + 500))
                 owners += [fname, fname + ':str']
+                # __LINE__ in a macro that was defined in another file: the numbering of the place of use applies
+                lines.append('  OUTV(%d, HDR_HERE()); OUTV(%d, HDR_HERE2);' % (k + 700, k + 800))
+                owners += [fname, fname]
         if rng.random() < 0.5:
             lines.append('')
     lines += ['  return 0;', '}']
@@ -502,6 +514,31 @@ def run(ctx):
         if lows:
             ctx.violation('C18|loc|line-directive|physical-line-leak', '.loc records after #line name physical lines %s' % sorted(set(lows))[:8], files=pf,
                           script='$CHIBICC -I$VERIF/rt -S -o- lineprobe.c | sed -n "/^main:/,\$p" | grep "\.loc" | awk \'$3 < 500 { bad = 1 } END { exit bad }\'')
+    # a narrow literal re-encoded next to a wide one, in a file without any other synthesized token after its last #include
+    wl = os.path.join(work, 'wl')
+    os.makedirs(wl, exist_ok=True)
+    open(os.path.join(wl, 'wl_hdr.h'), 'w').write('\n' * 9 + 'extern int wl_declared_in_header;\n' + '\n' * 5)
+    for (tag, stmt) in [('diag', '"ab" L"cd" = 1;'), ('diag-u', '"x" "ab" u"cd" = 1;'), ('loc', 'wlp = "ab" L"cd";'), ('loc-U', 'wlp = "ab" "q" U"cd";')]:
+        nblank = rng.randrange(1, 6)
+        srcw = '#include "wl_hdr.h"\n' + '\n' * nblank + 'const void *wlp;\nvoid wlf(void) {\n  %s\n}\n' % stmt
+        want = nblank + 4
+        pw = os.path.join(wl, 'wl_%s.c' % tag)
+        open(pw, 'w').write(srcw)
+        rw = core.sh([cc, '-S', '-o', '-', pw], cwd=wl, timeout=60)
+        ctx.evaluations += 1
+        ctx.saw('probe:widened-literal-after-include:' + tag)
+        if tag.startswith('diag'):
+            ctx.count('diagnostics_checked')
+            m4 = re.match(r'(.*?):(\d+): ', rw[2].decode('utf-8', 'replace'))
+            if rw[0] == 0 or not m4 or os.path.basename(m4.group(1)) != 'wl_%s.c' % tag or int(m4.group(2)) != want:
+                ctx.violation('C18|diag|widened-literal-after-include|%s' % ('wrong-file' if m4 and os.path.basename(m4.group(1)) != 'wl_%s.c' % tag else 'line-off'),
+                              'error on a re-encoded string literal at wl_%s.c:%d reported as: %s' % (tag, want, core.first_line(rw[2].decode('utf-8', 'replace'))), files={'wl.c': srcw, 'wl_hdr.h': open(os.path.join(wl, 'wl_hdr.h')).read()})
+        elif rw[0] == 0:
+            recs = re.findall(r'\.loc (\d+) (\d+)', rw[1].decode('utf-8', 'replace').split('\nwlf:\n')[-1])
+            ctx.count('loc_records_checked', len(recs))
+            bad = [r for r in recs if r[0] != '1' or not (want - 1 <= int(r[1]) <= want + 1)]
+            if bad:
+                ctx.violation('C18|loc|widened-literal-after-include', '.loc records of `%s` on line %d of file 1: %s' % (stmt, want, bad[:4]), files={'wl.c': srcw, 'wl_hdr.h': open(os.path.join(wl, 'wl_hdr.h')).read()})
     # open finding: a macro defined before a #line directive and used after it - its body tokens are numbered "definition line + current delta"
     src2 = '#define STR(x) #x\nvoid OUTS(long, const char *);\nint main(void) {\n\n\n#line 700\n  OUTS(2, STR(b));\n  return 0;\n}\n'
     p2 = os.path.join(work, 'lineprobe2.c')
